@@ -28,6 +28,65 @@ Qed.
 Lemma stage_list_1 : stage_list 1 = [0].
 Proof. reflexivity. Qed.
 
+(* ---- components of the world after deactivate / buf_process ---- *)
+Definition nw_after (x : mst) : option N :=
+  match timers x with (t, _) :: _ => if lt_nw t (nw x) then Some t else nw x | [] => nw x end.
+
+Lemma deactivate_mod_eq i w : w_mod (deactivate i w) i = set_nw (w_mod w i) (nw_after (w_mod w i)).
+Proof.
+  unfold deactivate, nw_after. destruct (timers (w_mod w i)) as [|[t tk] r].
+  - cbn [w_mod set_cur]. destruct (w_mod w i); reflexivity.
+  - destruct (lt_nw t (nw (w_mod w i))).
+    + wsimpl. rewrite N.eqb_refl. reflexivity.
+    + cbn [w_mod set_cur]. destruct (w_mod w i); reflexivity.
+Qed.
+
+Definition consumed (now : N) (x : mst) : mst :=
+  {| active := false; inc := inc x + 1; bud := bud x; shut := None; nw := nw_bump now (nw x);
+     timers := []; ready := []; tpanics := tpanics x |}.
+
+Lemma buf_process_mod c now i w :
+  w_mod (fst (buf_process c now i w)) i = match shut (w_mod w i) with Some _ => consumed now (w_mod w i) | None => w_mod w i end.
+Proof.
+  unfold buf_process, shutdown_part. cbn [w_mod set_buf set_fes].
+  destruct (shut (w_mod w i)) as [[t|]|]; cbn [fst]; wsimpl; rewrite ?N.eqb_refl; reflexivity.
+Qed.
+
+Lemma buf_process_fes c now i w :
+  w_fes (fst (buf_process c now i w)) = fes_flush (restart_of i (w_mod w i)) (fes_flush (w_buf w) (w_fes w)).
+Proof.
+  unfold buf_process, shutdown_part, restart_of. cbn [w_mod set_buf set_fes].
+  destruct (shut (w_mod w i)) as [[t|]|]; reflexivity.
+Qed.
+
+Lemma activate_shut now i w : shut (w_mod (activate now i w) i) = shut (w_mod w i).
+Proof. unfold activate. destruct (split_due now (timers (w_mod w i))). wsimpl. rewrite N.eqb_refl. reflexivity. Qed.
+
+(* an event of a module that is inactive without a pending request *)
+Lemma around_inactive sc0 now i f w : active (w_mod w i) = false -> shut (w_mod w i) = None -> w_buf w = [] ->
+  (forall s, active (w_mod (x_w s) i) = false -> f s = s) ->
+  snd (around sc0 now i f w) = [] /\
+  w_fes (fst (around sc0 now i f w)) = fes_flush (wake_of i (w_mod (activate now i w) i)) (w_fes w) /\
+  (forall j, j <> i -> w_mod (fst (around sc0 now i f w)) j = w_mod w j) /\
+  active (w_mod (fst (around sc0 now i f w)) i) = false /\ shut (w_mod (fst (around sc0 now i f w)) i) = None /\
+  w_buf (fst (around sc0 now i f w)) = [].
+Proof.
+  intros Ha Hs Hb Hf.
+  assert (E : f {| x_w := activate now i w; x_log := [] |} = {| x_w := activate now i w; x_log := [] |})
+    by (apply Hf; cbn [x_w]; rewrite activate_active; exact Ha).
+  assert (Hsd : shut (w_mod (deactivate i (activate now i w)) i) = None)
+    by (rewrite deactivate_mod_eq; cbn [shut set_nw]; rewrite activate_shut; exact Hs).
+  split; [|split; [|split; [|split; [|split]]]].
+  - unfold around. rewrite E. cbn [x_w x_log app]. unfold buf_process, shutdown_part. cbn [w_mod set_buf set_fes].
+    rewrite Hsd. reflexivity.
+  - rewrite around_fst, E. cbn [x_w]. rewrite buf_process_fes. unfold restart_of. rewrite Hsd.
+    rewrite deactivate_buf, activate_buf, Hb. cbn [fes_flush fold_left]. rewrite deactivate_fes, activate_fes. reflexivity.
+  - intros j Hj. rewrite around_fst, E. cbn [x_w]. rewrite buf_process_oth, deactivate_oth by exact Hj. apply activate_oth, Hj.
+  - rewrite around_fst, E. cbn [x_w]. rewrite buf_process_mod, Hsd, deactivate_mod_eq. cbn [active set_nw]. rewrite activate_active. exact Ha.
+  - rewrite around_fst, E. cbn [x_w]. rewrite buf_process_mod, Hsd. exact Hsd.
+  - apply around_glob.
+Qed.
+
 Section Silent.
 Variables (sc : script) (m : N).
 Hypothesis Hst : c_stages (cfg sc m) = 1.
@@ -105,27 +164,30 @@ Qed.
 Lemma same_other_event now i f w w' : i <> m -> Same w w' -> CbOK i f ->
   (forall s s', AgreeX i s s' -> AgreeX i (f s) (f s')) ->
   snd (around sc now i f w) = snd (around sc' now i f w') /\ Same (fst (around sc now i f w)) (fst (around sc' now i f w')) /\
-  (WF (w_fes w) -> WF (w_fes w') -> WF (w_fes (fst (around sc now i f w))) /\ WF (w_fes (fst (around sc' now i f w')))).
+  (WF (w_fes w) -> WF (w_fes w') -> WF (w_fes (fst (around sc now i f w))) /\ WF (w_fes (fst (around sc' now i f w')))) /\
+  f_tcur (w_fes (fst (around sc now i f w))) = f_tcur (w_fes w) /\ f_tcur (w_fes (fst (around sc' now i f w'))) = f_tcur (w_fes w').
 Proof.
   intros Hi HS Hok Hf. pose proof HS as [a b [c d]].
   destruct (other_event now i f w w' Hi (Same_agree i w w' HS) c d Hok Hf) as (E1 & E2 & E3 & E4 & adds & E5 & E6 & _).
   split; [exact E1|]. split.
   - constructor; [|rewrite E5, E6, b; reflexivity|exact E4].
     intros j. destruct (N.eq_dec j i) as [->|Hj]; [exact E2|]. destruct (E3 j Hj) as [-> ->]. apply a.
-  - intros W W'. rewrite E5, E6. split; apply WF_flush; assumption.
+  - split; [intros W W'; rewrite E5, E6; split; apply WF_flush; assumption|].
+    rewrite E5, E6, !fes_flush_tcur. auto.
 Qed.
 
 Lemma dead_other_event now i f w w' : i <> m -> Dead w w' -> CbOK i f ->
   (forall s s', AgreeX i s s' -> AgreeX i (f s) (f s')) ->
   WF (w_fes w) -> WF (w_fes w') -> f_tcur (w_fes w) = f_tcur (w_fes w') ->
   snd (around sc now i f w) = snd (around sc' now i f w') /\ Dead (fst (around sc now i f w)) (fst (around sc' now i f w')) /\
-  WF (w_fes (fst (around sc now i f w))) /\ WF (w_fes (fst (around sc' now i f w'))).
+  WF (w_fes (fst (around sc now i f w))) /\ WF (w_fes (fst (around sc' now i f w'))) /\
+  f_tcur (w_fes (fst (around sc now i f w))) = f_tcur (w_fes w) /\ f_tcur (w_fes (fst (around sc' now i f w'))) = f_tcur (w_fes w').
 Proof.
   intros Hi HD Hok Hf W W' Et. pose proof HD as [a [b1 b2] [s1 s2] [c d] fr [n1 n2]].
   destruct (other_event now i f w w' Hi (Dead_agree i w w' Hi HD) c d Hok Hf) as (E1 & E2 & E3 & E4 & adds & E5 & E6 & E7).
   assert (Hm : m <> i) by (intros E; apply Hi; symmetry; exact E).
   destruct (E3 m Hm) as [M1 M2].
-  split; [exact E1|]. split; [|rewrite E5, E6; split; apply WF_flush; assumption].
+  split; [exact E1|]. split; [|rewrite E5, E6, !fes_flush_tcur; repeat split; try reflexivity; apply WF_flush; assumption].
   constructor.
   - intros j Hj. destruct (N.eq_dec j i) as [->|Hji]; [exact E2|]. destruct (E3 j Hji) as [-> ->]. apply a, Hj.
   - rewrite M1, M2. auto.
@@ -133,5 +195,488 @@ Proof.
   - exact E4.
   - rewrite E5, E6. apply FesRel_flush; assumption.
   - rewrite E5, E6, !(flush_rt_addok m i Hi) by assumption. auto.
+Qed.
+
+(* ---- an inert event on a world in which m is dead ---- *)
+Lemma inert_step sc0 w t ev f1 :
+  active (w_mod w m) = false -> shut (w_mod w m) = None -> w_buf w = [] -> WF (w_fes w) ->
+  restart_times m (w_fes w) = [] -> fes_fetch (w_fes w) = Some (t, ev, f1) -> inert m ev = true ->
+  let w1 := fst (process sc0 (set_fes w f1) t ev) in
+  (forall j, j <> m -> w_mod w1 j = w_mod w j) /\ active (w_mod w1 m) = false /\ shut (w_mod w1 m) = None /\
+  w_buf w1 = [] /\ WF (w_fes w1) /\ restart_times m (w_fes w1) = [] /\
+  (forall f', FesRel m (w_fes w) f' -> FesRel m (w_fes w1) f') /\
+  snd (process sc0 (set_fes w f1) t ev) = [].
+Proof.
+  intros Ha Hs Hb W Hn Hf Hi w1.
+  destruct (WF_fetch _ _ _ _ W Hf) as [W1 _].
+  assert (Hn1 : restart_times m f1 = []).
+  { pose proof (fes_fetch_order _ _ _ _ Hf) as Ho. unfold restart_times in *. rewrite Ho in Hn. unfold rtimes in *. cbn [filter] in Hn.
+    destruct (is_restart m (t, ev)); [discriminate|exact Hn]. }
+  assert (Hwk : forall x, Forall (fun p => inert m (snd p) = true /\ is_restart m p = false) (wake_of m x)).
+  { intros x. unfold wake_of. destruct (timers x) as [|[tt tk] r]; [constructor|]. destruct (lt_nw tt (nw x)); [|constructor].
+    constructor; [|constructor]. cbn [snd inert]. rewrite N.eqb_refl. split; reflexivity. }
+  assert (Hfl : forall l f, Forall (fun p => inert m (snd p) = true /\ is_restart m p = false) l -> WF f ->
+                  WF (fes_flush l f) /\ restart_times m (fes_flush l f) = restart_times m f /\
+                  (forall f', FesRel m f f' -> FesRel m (fes_flush l f) f')).
+  { induction l as [|p l IH]; intros f Hl Wf; cbn [fes_flush fold_left]; [auto|].
+    inversion Hl as [|? ? [Hp1 Hp2] Hl']; subst. fold (fes_flush l (fes_add (fst p) (snd p) f)).
+    destruct (IH (fes_add (fst p) (snd p) f) Hl' (WF_add _ _ _ Wf)) as (I1 & I2 & I3).
+    split; [exact I1|]. split; [rewrite I2; apply fes_add_rt_other; destruct p; exact Hp2|].
+    intros f' R. apply I3, FesRel_add_l; assumption. }
+  assert (Hmod : forall fcb, (forall s, active (w_mod (x_w s) m) = false -> fcb s = s) ->
+     let w2 := fst (around sc0 t m fcb (set_fes w f1)) in
+     (forall j, j <> m -> w_mod w2 j = w_mod w j) /\ active (w_mod w2 m) = false /\ shut (w_mod w2 m) = None /\
+     w_buf w2 = [] /\ WF (w_fes w2) /\ restart_times m (w_fes w2) = [] /\
+     (forall f', FesRel m (w_fes w) f' -> FesRel m (w_fes w2) f') /\ snd (around sc0 t m fcb (set_fes w f1)) = []).
+  { intros fcb Hid w2. destruct (around_inactive sc0 t m fcb (set_fes w f1) Ha Hs Hb Hid) as (A1 & A2 & A3 & A4 & A5 & A6).
+    destruct (Hfl _ f1 (Hwk (w_mod (activate t m (set_fes w f1)) m)) W1) as (F1 & F2 & F3).
+    subst w2. rewrite A2. cbn [w_fes set_fes]. split; [exact A3|]. split; [exact A4|]. split; [exact A5|]. split; [exact A6|].
+    split; [exact F1|]. split; [rewrite F2; exact Hn1|]. split; [|exact A1].
+    intros f' R. apply F3. eapply fetch_inert_l; eauto. }
+  destruct ev as [i far x|i x|i|i]; cbn [inert] in Hi; try discriminate; apply N.eqb_eq in Hi; subst i; unfold process in *.
+  - subst w1. unfold walk. cbn [w_mod set_fes]. rewrite Ha. cbn [fst snd set_fes w_mod w_buf w_fes].
+    repeat (split; [assumption|]). split; [intros; reflexivity|]. repeat (split; [assumption|]).
+    split; [intros f' R; eapply fetch_inert_l; [exact Hf|cbn [inert]; apply N.eqb_refl|exact R]|reflexivity].
+  - apply Hmod. intros s Hact. unfold handle_message. rewrite Hact. reflexivity.
+  - apply Hmod. intros s Hact. unfold async_wakeup. rewrite Hact. reflexivity.
+Qed.
+
+(* ---- an event of m itself while the two worlds are still equal ---- *)
+Definition Post (s s' : xs) : Prop :=
+  Agree m (x_w s) (x_w s') \/ (Div m (x_w s) (x_w s') /\ active (w_mod (x_w s) m) = false).
+
+Lemma Div_catch c w w' : Div m w w' ->
+  Div m (fst (catch c m true w)) w' /\ active (w_mod (fst (catch c m true w)) m) = false.
+Proof.
+  intros [a b c0 d e f g h i]. unfold catch.
+  assert (G : Div m (set_mod w m (set_active (w_mod w m) false)) w').
+  { constructor; cbn [w_buf w_mod set_mod]; rewrite ?N.eqb_refl; cbn [timers nw inc bud tpanics shut set_active]; try assumption.
+    intros j Hj. apply N.eqb_neq in Hj. rewrite Hj. apply b. apply N.eqb_neq, Hj. }
+  destruct (c_catch c); cbn [fst]; (split; [|cbn [w_mod set_err set_mod]; rewrite N.eqb_refl; reflexivity]); [exact G|].
+  destruct G as [a' b' c' d' e' f' g' h' i']. constructor; assumption.
+Qed.
+
+Lemma at_sim_start0_post now s s' : AgreeX m s s' ->
+  Post (fst (at_sim_start (nmods sc) (cfg sc m) now m 0 s)) (fst (at_sim_start (nmods sc') (cfg sc' m) now m 0 s')).
+Proof.
+  intros H. pose proof H as [Ha Hl]. unfold at_sim_start. rewrite N.eqb_refl, nmods', cfg_self, pick_start_quiet.
+  change (c_tasks (quiet_cfg (cfg sc m))) with (c_tasks (cfg sc m)). rewrite <- (ag_mod _ _ _ Ha).
+  destruct (exec_quiet (nmods sc) now m (CbStart 0) (c_tasks (cfg sc m)) (pick_start (cfg sc m) (inc (w_mod (x_w s) m))) s s' H)
+    as [(E1 & E2 & E3)|(E1 & E2 & E3)];
+    destruct (exec (nmods sc) now m (CbStart 0) (c_tasks (cfg sc m)) (pick_start (cfg sc m) (inc (w_mod (x_w s) m))) s) as [s1 p1];
+    destruct (exec (nmods sc) now m (CbStart 0) (c_tasks (cfg sc m)) (map quiet_act (pick_start (cfg sc m) (inc (w_mod (x_w s) m)))) s') as [s1' p1'];
+    cbn [fst snd] in *; subst p1 p1'.
+  - left. cbn [catch fst x_w]. exact (proj1 E3).
+  - right. destruct (Div_catch (cfg sc m) _ _ E3) as [D1 D2].
+    destruct (catch (cfg sc m) m true (x_w s1)) as [w2 e2]. cbn [catch fst x_w] in *. auto.
+Qed.
+
+Lemma handle_message_post now x s s' : AgreeX m s s' ->
+  Post (handle_message (nmods sc) (cfg sc m) now m x s) (handle_message (nmods sc') (cfg sc' m) now m x s').
+Proof.
+  intros H. pose proof H as [Ha Hl]. unfold handle_message. rewrite nmods', cfg_self, pick_msg_quiet, <- (ag_act _ _ _ Ha m).
+  destruct (active (w_mod (x_w s) m)); [|left; exact Ha].
+  destruct (exec_quiet (nmods sc) now m (CbMsg x) [] (pick_msg (cfg sc m) x) s s' H) as [(E1 & E2 & E3)|(E1 & E2 & E3)];
+    destruct (exec (nmods sc) now m (CbMsg x) [] (pick_msg (cfg sc m) x) s) as [s1 p1];
+    destruct (exec (nmods sc) now m (CbMsg x) [] (map quiet_act (pick_msg (cfg sc m) x)) s') as [s1' p1'];
+    cbn [fst snd] in *; subst p1 p1'.
+  - left. cbn [catch fst x_w]. exact (proj1 E3).
+  - right. destruct (Div_catch (cfg sc m) _ _ E3) as [D1 D2]. cbn [x_w]. change (catch (quiet_cfg (cfg sc m)) m false (x_w s1')) with (x_w s1', false).
+    cbn [fst]. auto.
+Qed.
+
+Lemma module_restart_post now s s' : AgreeX m s s' ->
+  Post (module_restart (nmods sc) (cfg sc m) now m s) (module_restart (nmods sc') (cfg sc' m) now m s').
+Proof.
+  intros H. unfold module_restart.
+  assert (Hs' : c_stages (cfg sc' m) = 1) by (rewrite cfg_self; exact Hst).
+  rewrite Hst, Hs', stage_list_1. cbn [fold_left fst snd]. apply at_sim_start0_post.
+  apply AgreeX_on_w; [exact H|]. apply (Agree_upd m _ _ (fun x => set_active x true) (proj1 H)).
+Qed.
+
+(* the world after the event, from the post-callback relation *)
+Lemma m_event now f f' w w' : Same w w' -> WF (w_fes w) ->
+  (Div m (x_w (f {| x_w := activate now m w; x_log := [] |})) (x_w (f' {| x_w := activate now m w'; x_log := [] |})) ->
+   restart_times m (w_fes w) = []) -> CbOK m f -> CbOK m f' ->
+  Post (f {| x_w := activate now m w; x_log := [] |}) (f' {| x_w := activate now m w'; x_log := [] |}) ->
+  (Same (fst (around sc now m f w)) (fst (around sc' now m f' w')) \/ Dead (fst (around sc now m f w)) (fst (around sc' now m f' w'))) /\
+  WF (w_fes (fst (around sc now m f w))) /\ WF (w_fes (fst (around sc' now m f' w'))) /\
+  f_tcur (w_fes (fst (around sc now m f w))) = f_tcur (w_fes w) /\ f_tcur (w_fes (fst (around sc' now m f' w'))) = f_tcur (w_fes w).
+Proof.
+  intros HS W Hn0 Hok Hok' HP. pose proof HS as [a b [c d]].
+  destruct (Hok {| x_w := activate now m w; x_log := [] |}) as [[Fo1 Ff _ _ _ (lb & Hlb & Mlb)] _].
+  destruct (Hok' {| x_w := activate now m w'; x_log := [] |}) as [[Fo1' Ff' _ _ _ _] _].
+  cbn [x_w] in Fo1, Fo1', Ff, Ff', Hlb. rewrite activate_fes in Ff, Ff'. rewrite activate_buf, c in Hlb. cbn [app] in Hlb.
+  assert (Hoth : forall j, j <> m -> w_mod (fst (around sc now m f w)) j = w_mod (fst (around sc' now m f' w')) j).
+  { intros j Hj. rewrite !around_oth by assumption. apply a. }
+  destruct HP as [HA|[HD Hact]].
+  - destruct (around_agree2 sc sc' now m f f' w w' (Same_agree m w w' HS) Hok Hok' c HA) as (A1 & (adds & A2 & A3 & _) & _).
+    split; [left|rewrite A2, A3, <- b, !fes_flush_tcur; repeat split; try reflexivity; apply WF_flush, W].
+    constructor; [|rewrite A2, A3, b; reflexivity|split; apply around_glob].
+    intros j. destruct (N.eq_dec j m) as [->|Hj]; [apply (ag_mod _ _ _ A1)|apply Hoth, Hj].
+  - pose proof (Hn0 HD) as Hn.
+    set (s := f {| x_w := activate now m w; x_log := [] |}) in *.
+    set (s' := f' {| x_w := activate now m w'; x_log := [] |}) in *.
+    destruct HD as [vb va vt vn vi vbu vtp vr vs].
+    assert (Ewk : wake_of m (w_mod (x_w s) m) = wake_of m (w_mod (x_w s') m)) by (unfold wake_of; rewrite vt, vn; reflexivity).
+    assert (Enw : nw_after (w_mod (x_w s) m) = nw_after (w_mod (x_w s') m)) by (unfold nw_after; rewrite vt, vn; reflexivity).
+    set (base := fes_flush (w_buf (x_w s)) (fes_flush (wake_of m (w_mod (x_w s) m)) (w_fes w))).
+    assert (Hb1 : fes_flush (w_buf (deactivate m (x_w s))) (w_fes (deactivate m (x_w s))) = base)
+      by (rewrite deactivate_buf, deactivate_fes, Ff; reflexivity).
+    assert (Hb2 : fes_flush (w_buf (deactivate m (x_w s'))) (w_fes (deactivate m (x_w s'))) = base)
+      by (rewrite deactivate_buf, deactivate_fes, Ff', <- vb, <- Ewk, <- b; reflexivity).
+    assert (Wb : WF base) by (unfold base; apply WF_flush, WF_flush, W).
+    assert (Nb : restart_times m base = []).
+    { unfold base. rewrite fes_flush_rt; [|rewrite Hlb; exact Mlb].
+      unfold wake_of. destruct (timers (w_mod (x_w s) m)) as [|[tt tk] r]; [exact Hn|].
+      destruct (lt_nw tt (nw (w_mod (x_w s) m))); [|exact Hn]. cbn [fes_flush fold_left fst snd]. rewrite fes_add_rt_other; [exact Hn|reflexivity]. }
+    assert (Hsh : shut (w_mod (deactivate m (x_w s)) m) = shut (w_mod (x_w s) m)) by (rewrite deactivate_mod_eq; reflexivity).
+    assert (Hsh' : shut (w_mod (deactivate m (x_w s')) m) = shut (w_mod (x_w s') m)) by (rewrite deactivate_mod_eq; reflexivity).
+    assert (Hm1 : w_mod (fst (around sc now m f w)) m =
+                  match shut (w_mod (x_w s) m) with Some _ => consumed now (set_nw (w_mod (x_w s) m) (nw_after (w_mod (x_w s) m)))
+                                               | None => set_nw (w_mod (x_w s) m) (nw_after (w_mod (x_w s) m)) end)
+      by (rewrite around_fst; fold s; rewrite buf_process_mod, Hsh, deactivate_mod_eq; reflexivity).
+    assert (Hm2 : w_mod (fst (around sc' now m f' w')) m = consumed now (set_nw (w_mod (x_w s') m) (nw_after (w_mod (x_w s') m))))
+      by (rewrite around_fst; fold s'; rewrite buf_process_mod, Hsh', deactivate_mod_eq, vs; reflexivity).
+    assert (Hf1 : w_fes (fst (around sc now m f w)) = fes_flush (restart_of m (w_mod (x_w s) m)) base)
+      by (rewrite around_fst; fold s; rewrite buf_process_fes, Hb1; unfold restart_of; rewrite Hsh; reflexivity).
+    assert (Hf2 : w_fes (fst (around sc' now m f' w')) = fes_flush (restart_of m (w_mod (x_w s') m)) base)
+      by (rewrite around_fst; fold s'; rewrite buf_process_fes, Hb2; unfold restart_of; rewrite Hsh'; reflexivity).
+    assert (Ecs : consumed now (set_nw (w_mod (x_w s) m) (nw_after (w_mod (x_w s) m))) =
+                  consumed now (set_nw (w_mod (x_w s') m) (nw_after (w_mod (x_w s') m))))
+      by (unfold consumed; cbn [inc bud nw tpanics set_nw]; rewrite vi, vbu, vtp, Enw; reflexivity).
+    destruct (shut (w_mod (x_w s) m)) as [r|] eqn:Es.
+    + (* a request was pending: both consume it, the worlds are equal again *)
+      assert (Er : restart_of m (w_mod (x_w s') m) = restart_of m (w_mod (x_w s) m)) by (unfold restart_of; rewrite vs, Es; reflexivity).
+      assert (Tb : f_tcur base = f_tcur (w_fes w)) by (unfold base; rewrite !fes_flush_tcur; reflexivity).
+      split; [left|rewrite Hf1, Hf2, !fes_flush_tcur; repeat split; try exact Tb; apply WF_flush, Wb].
+      constructor; [|rewrite Hf1, Hf2, Er; reflexivity|split; apply around_glob].
+      intros j. destruct (N.eq_dec j m) as [->|Hj]; [rewrite Hm1, Hm2; exact Ecs|apply Hoth, Hj].
+    + (* no request: the panicking run keeps a dead module, the quiet run shuts it down for good *)
+      assert (Er1 : restart_of m (w_mod (x_w s) m) = []) by (unfold restart_of; rewrite Es; reflexivity).
+      assert (Er2 : restart_of m (w_mod (x_w s') m) = []) by (unfold restart_of; rewrite vs; reflexivity).
+      rewrite Er1 in Hf1. rewrite Er2 in Hf2. cbn [fes_flush fold_left] in Hf1, Hf2.
+      assert (Tb : f_tcur base = f_tcur (w_fes w)) by (unfold base; rewrite !fes_flush_tcur; reflexivity).
+      split; [right|rewrite Hf1, Hf2; auto].
+      constructor; [exact Hoth| | |split; apply around_glob|rewrite Hf1, Hf2; apply FesRel_refl|rewrite Hf1, Hf2; auto].
+      * rewrite Hm1, Hm2. cbn [active set_nw consumed]. auto.
+      * rewrite Hm1, Hm2. cbn [shut set_nw consumed]. auto.
+Qed.
+
+(* ---- one dispatched event in both runs ---- *)
+Lemma others_loop_items l l' t k k' : others l = others l' -> others (l ++ [ISample t k]) = others (l' ++ [ISample t k']).
+Proof. intros H. rewrite !others_app, H. reflexivity. Qed.
+
+Lemma cb_msg i t x : i <> m -> handle_message (nmods sc') (cfg sc' i) t i x = handle_message (nmods sc) (cfg sc i) t i x.
+Proof. intros H. rewrite nmods', (cfg_other i H). reflexivity. Qed.
+Lemma cb_wake i t : async_wakeup (nmods sc') t i = async_wakeup (nmods sc) t i.
+Proof. rewrite nmods'. reflexivity. Qed.
+Lemma cb_restart i t : i <> m -> module_restart (nmods sc') (cfg sc' i) t i = module_restart (nmods sc) (cfg sc i) t i.
+Proof. intros H. rewrite nmods', (cfg_other i H). reflexivity. Qed.
+Lemma cb_start i stage : i <> m -> start_cb sc' stage i = start_cb sc stage i.
+Proof. intros H. unfold start_cb. rewrite nmods', (cfg_other i H). reflexivity. Qed.
+
+Lemma rt_after_fetch f t ev f1 : fes_fetch f = Some (t, ev, f1) -> restart_times m f = [] -> restart_times m f1 = [].
+Proof.
+  intros Hf Hn. pose proof (fes_fetch_order _ _ _ _ Hf) as Ho. unfold restart_times in *. rewrite Ho in Hn. unfold rtimes in *.
+  cbn [filter] in Hn. destruct (is_restart m (t, ev)); [discriminate|exact Hn].
+Qed.
+
+Lemma step_same w w' t ev f1 : Same w w' -> WF (w_fes w) -> fes_fetch (w_fes w) = Some (t, ev, f1) ->
+  shut (w_mod w m) = None ->
+  (active (w_mod w m) = true -> restart_times m (w_fes w) = []) ->
+  (ev = EvRestart m -> restart_times m f1 = []) ->
+  Rel (fst (loop_rec sc (set_fes w f1) t ev)) (fst (loop_rec sc' (set_fes w' f1) t ev)) /\
+  others (e_items (snd (loop_rec sc (set_fes w f1) t ev))) = others (e_items (snd (loop_rec sc' (set_fes w' f1) t ev))).
+Proof.
+  intros HS W Hf Hsh HRT HRS. pose proof HS as [a b [c d]].
+  destruct (WF_fetch _ _ _ _ W Hf) as [W1 Et].
+  assert (HS1 : Same (set_fes w f1) (set_fes w' f1)) by (constructor; [exact a|reflexivity|auto]).
+  unfold loop_rec. cbn [fst snd e_items].
+  assert (Mev : forall f f', CbOK m f -> CbOK m f' ->
+            Post (f {| x_w := activate t m (set_fes w f1); x_log := [] |}) (f' {| x_w := activate t m (set_fes w' f1); x_log := [] |}) ->
+            (Div m (x_w (f {| x_w := activate t m (set_fes w f1); x_log := [] |})) (x_w (f' {| x_w := activate t m (set_fes w' f1); x_log := [] |})) ->
+             restart_times m f1 = []) ->
+            Rel (fst (around sc t m f (set_fes w f1))) (fst (around sc' t m f' (set_fes w' f1))) /\
+            forall k k', others (snd (around sc t m f (set_fes w f1)) ++ [ISample t k]) =
+                         others (snd (around sc' t m f' (set_fes w' f1)) ++ [ISample t k'])).
+  { intros f f' Hok Hok' HP Hn. destruct (m_event t f f' _ _ HS1 W1 Hn Hok Hok' HP) as (R & Wa & Wb & _).
+    split; [split; [exact R|split; assumption]|]. intros k k'. apply others_loop_items.
+    rewrite (others_own _ (around_own sc t m f _ Hok)), (others_own _ (around_own sc' t m f' _ Hok')). reflexivity. }
+  assert (Oev : forall i f, i <> m -> CbOK i f -> (forall s s', AgreeX i s s' -> AgreeX i (f s) (f s')) ->
+            Rel (fst (around sc t i f (set_fes w f1))) (fst (around sc' t i f (set_fes w' f1))) /\
+            forall k k', others (snd (around sc t i f (set_fes w f1)) ++ [ISample t k]) =
+                         others (snd (around sc' t i f (set_fes w' f1)) ++ [ISample t k'])).
+  { intros i f Hi Hok Hag. destruct (same_other_event t i f _ _ Hi HS1 Hok Hag) as (E1 & E2 & E3 & _).
+    destruct (E3 W1 W1) as [Wa Wb]. split; [split; [left; exact E2|split; assumption]|].
+    intros k k'. apply others_loop_items. rewrite E1. reflexivity. }
+  destruct ev as [i far x|i x|i|i]; unfold process.
+  - (* a message leaving a connection *)
+    cbn [fst snd app]. rewrite nmods', <- (walk_agree (nmods sc) i far _ _ (Same_agree i _ _ HS1)).
+    split; [|reflexivity]. destruct (walk (nmods sc) (set_fes w f1) i far); cbn [set_fes w_fes].
+    + split; [left; constructor; [exact a|reflexivity|auto]|split; apply WF_add, W1].
+    + split; [left; exact HS1|split; exact W1].
+  - destruct (N.eq_dec i m) as [->|Hi].
+    + destruct (Mev (handle_message (nmods sc) (cfg sc m) t m x) (handle_message (nmods sc') (cfg sc' m) t m x)
+                    (handle_message_ok _ _ _ _ _) (handle_message_ok _ _ _ _ _)) as [R O].
+      * apply handle_message_post. split; [apply activate_agree, Same_agree, HS1|reflexivity].
+      * intros HD. destruct (active (w_mod w m)) eqn:Ea; [eapply rt_after_fetch; [exact Hf|apply HRT; reflexivity]|].
+        exfalso. destruct HD as [_ _ _ _ _ _ _ _ vs]. unfold handle_message in vs. cbn [x_w] in vs.
+        rewrite activate_active in vs. cbn [w_mod set_fes] in vs. rewrite <- (a m), Ea in vs. cbn [x_w] in vs.
+        rewrite activate_shut in vs. cbn [w_mod set_fes] in vs. rewrite <- (a m), Hsh in vs. discriminate.
+      * split; [exact R|apply O].
+    + rewrite (cb_msg i t x Hi). destruct (Oev i (handle_message (nmods sc) (cfg sc i) t i x) Hi (handle_message_ok _ _ _ _ _) (handle_message_agree _ _ _ _ _)) as [R O].
+      split; [exact R|apply O].
+  - destruct (N.eq_dec i m) as [->|Hi].
+    + rewrite cb_wake.
+      destruct (Mev (async_wakeup (nmods sc) t m) (async_wakeup (nmods sc) t m) (async_wakeup_ok _ _ _) (async_wakeup_ok _ _ _)) as [R O].
+      * left. apply async_wakeup_agree. split; [apply activate_agree, Same_agree, HS1|reflexivity].
+      * intros HD. destruct (active (w_mod w m)) eqn:Ea; [eapply rt_after_fetch; [exact Hf|apply HRT; reflexivity]|].
+        exfalso. destruct HD as [_ _ _ _ _ _ _ _ vs]. unfold async_wakeup in vs. cbn [x_w] in vs.
+        rewrite activate_active in vs. cbn [w_mod set_fes] in vs. rewrite <- (a m), Ea in vs. cbn [x_w] in vs.
+        rewrite activate_shut in vs. cbn [w_mod set_fes] in vs. rewrite <- (a m), Hsh in vs. discriminate.
+      * split; [exact R|apply O].
+    + rewrite cb_wake. destruct (Oev i (async_wakeup (nmods sc) t i) Hi (async_wakeup_ok _ _ _) (async_wakeup_agree _ _ _)) as [R O]. split; [exact R|apply O].
+  - destruct (N.eq_dec i m) as [->|Hi].
+    + destruct (Mev (module_restart (nmods sc) (cfg sc m) t m) (module_restart (nmods sc') (cfg sc' m) t m)
+                    (module_restart_ok _ _ _ _) (module_restart_ok _ _ _ _)) as [R O].
+      * apply module_restart_post. split; [apply activate_agree, Same_agree, HS1|reflexivity].
+      * intros _. apply HRS. reflexivity.
+      * split; [exact R|apply O].
+    + rewrite (cb_restart i t Hi). destruct (Oev i (module_restart (nmods sc) (cfg sc i) t i) Hi (module_restart_ok _ _ _ _) (module_restart_agree _ _ _ _)) as [R O].
+      split; [exact R|apply O].
+Qed.
+
+Lemma step_dead w w' t ev f1 f1' : Dead w w' -> WF (w_fes w) -> WF (w_fes w') ->
+  fes_fetch (w_fes w) = Some (t, ev, f1) -> fes_fetch (w_fes w') = Some (t, ev, f1') -> inert m ev = false ->
+  FesRel m f1 f1' ->
+  Rel (fst (loop_rec sc (set_fes w f1) t ev)) (fst (loop_rec sc' (set_fes w' f1') t ev)) /\
+  others (e_items (snd (loop_rec sc (set_fes w f1) t ev))) = others (e_items (snd (loop_rec sc' (set_fes w' f1') t ev))).
+Proof.
+  intros HD W W' Hf Hf' Hi FR. pose proof HD as [a [b1 b2] [s1 s2] [c d] _ [n1 n2]].
+  destruct (WF_fetch _ _ _ _ W Hf) as [W1 Et]. destruct (WF_fetch _ _ _ _ W' Hf') as [W1' Et'].
+  assert (HD1 : Dead (set_fes w f1) (set_fes w' f1')).
+  { constructor; cbn [w_mod w_buf w_fes set_fes]; auto. split; eapply rt_after_fetch; eauto. }
+  assert (Etc : f_tcur (w_fes (set_fes w f1)) = f_tcur (w_fes (set_fes w' f1'))) by (cbn [w_fes set_fes]; congruence).
+  unfold loop_rec. cbn [fst snd e_items].
+  assert (Oev : forall i f, i <> m -> CbOK i f -> (forall s s', AgreeX i s s' -> AgreeX i (f s) (f s')) ->
+            Rel (fst (around sc t i f (set_fes w f1))) (fst (around sc' t i f (set_fes w' f1'))) /\
+            forall k k', others (snd (around sc t i f (set_fes w f1)) ++ [ISample t k]) =
+                         others (snd (around sc' t i f (set_fes w' f1')) ++ [ISample t k'])).
+  { intros i f Hin Hok Hag. destruct (dead_other_event t i f _ _ Hin HD1 Hok Hag W1 W1' Etc) as (E1 & E2 & E3 & E4 & _).
+    split; [split; [right; exact E2|split; assumption]|]. intros k k'. apply others_loop_items. rewrite E1. reflexivity. }
+  destruct ev as [i far x|i x|i|i]; cbn [inert] in Hi; unfold process.
+  - apply N.eqb_neq in Hi.
+    cbn [fst snd app]. rewrite nmods', <- (walk_agree (nmods sc) i far _ _ (Dead_agree i _ _ Hi HD1)).
+    split; [|reflexivity]. destruct (walk (nmods sc) (set_fes w f1) i far) as [dst|]; cbn [set_fes w_fes].
+    + split; [right|split; apply WF_add; assumption].
+      destruct HD1 as [a' b' s' c' fr' [n1' n2']]. constructor; cbn [w_mod w_buf w_fes set_fes] in *; auto.
+      * apply FesRel_add; assumption.
+      * rewrite !fes_add_rt_other by reflexivity. auto.
+    + split; [right; exact HD1|split; assumption].
+  - apply N.eqb_neq in Hi. rewrite (cb_msg i t x Hi).
+    destruct (Oev i (handle_message (nmods sc) (cfg sc i) t i x) Hi (handle_message_ok _ _ _ _ _) (handle_message_agree _ _ _ _ _)) as [R O].
+    split; [exact R|apply O].
+  - apply N.eqb_neq in Hi. rewrite cb_wake.
+    destruct (Oev i (async_wakeup (nmods sc) t i) Hi (async_wakeup_ok _ _ _) (async_wakeup_agree _ _ _)) as [R O]. split; [exact R|apply O].
+  - destruct (N.eq_dec i m) as [->|Hin].
+    + exfalso. pose proof (fes_fetch_order _ _ _ _ Hf) as Ho. unfold restart_times in n1. rewrite Ho in n1.
+      unfold rtimes in n1. cbn [filter is_restart snd] in n1. rewrite N.eqb_refl in n1. discriminate.
+    + rewrite (cb_restart i t Hin).
+      destruct (Oev i (module_restart (nmods sc) (cfg sc i) t i) Hin (module_restart_ok _ _ _ _) (module_restart_agree _ _ _ _)) as [R O].
+      split; [exact R|apply O].
+Qed.
+
+(* ---- the loops ---- *)
+Lemma loop_step_eq sc0 w now tr :
+  loop_step sc0 (w, now, tr) =
+  match fes_fetch (w_fes w) with
+  | None => inr (w, now, tr)
+  | Some (t, ev, f1) => inl (fst (loop_rec sc0 (set_fes w f1) t ev), t, tr ++ [snd (loop_rec sc0 (set_fes w f1) t ev)])
+  end.
+Proof.
+  unfold loop_step, loop_rec. destruct (fes_fetch (w_fes w)) as [[[t ev] f1]|]; [|reflexivity].
+  destruct (process sc0 (set_fes w f1) t ev). reflexivity.
+Qed.
+
+(* what the generated worlds of the panicking run provide *)
+Lemma gen_facts w tr : Gen sc w tr ->
+  shut (w_mod w m) = None /\ (active (w_mod w m) = true -> restart_times m (w_fes w) = []) /\
+  (forall t f1, fes_fetch (w_fes w) = Some (t, EvRestart m, f1) -> restart_times m f1 = []).
+Proof.
+  intros HG. destruct (gen_WI sc w tr HG m) as [(_ & _ & Hs) _]. pose proof (gen_RI sc w tr HG m) as HR.
+  split; [exact Hs|]. split.
+  - intros Ha. destruct (pending m tr) eqn:Ep; [|exact HR]. exfalso.
+    assert (Hd : Down m w) by (apply (gen_down sc m w tr HG), pending_down; rewrite Ep; discriminate).
+    rewrite (dn_active _ _ Hd) in Ha. discriminate.
+  - intros t f1 Hf. pose proof (fes_fetch_order _ _ _ _ Hf) as Ho. unfold restart_times in *. rewrite Ho in HR.
+    unfold rtimes in *. cbn [filter is_restart snd] in HR. rewrite N.eqb_refl in HR. cbn [map fst] in HR.
+    destruct (pending m tr); [injection HR as _ HR; exact HR|discriminate].
+Qed.
+
+Lemma sim_loop : forall K n n' w w' now now' tr tr' wf nf trf wf' nf' trf',
+  (n + n' <= K)%nat -> Gen sc w tr -> Rel w w' -> others (items tr) = others (items tr') ->
+  iter_nat n (loop_step sc) (w, now, tr) = inr (wf, nf, trf) ->
+  iter_nat n' (loop_step sc') (w', now', tr') = inr (wf', nf', trf') ->
+  others (items trf) = others (items trf').
+Proof.
+  induction K as [|K IH]; intros n n' w w' now now' tr tr' wf nf trf wf' nf' trf' Hle HG HR Ho Hn Hn'.
+  - assert (n = 0%nat) by lia. subst n. cbn [iter_nat] in Hn. discriminate.
+  - destruct n as [|n]; [cbn [iter_nat] in Hn; discriminate|]. destruct n' as [|n']; [cbn [iter_nat] in Hn'; discriminate|].
+    cbn [iter_nat] in Hn, Hn'. rewrite loop_step_eq in Hn, Hn'.
+    assert (Litems : forall sc0 w0 t ev tr0, others (items (tr0 ++ [snd (loop_rec sc0 w0 t ev)])) =
+                     others (items tr0) ++ others (e_items (snd (loop_rec sc0 w0 t ev)))).
+    { intros. rewrite items_snoc, others_app. reflexivity. }
+    destruct HR as [[HS|HD] [W W']].
+    + (* the two worlds are equal *)
+      pose proof HS as [a b [c d]]. rewrite <- b in Hn'.
+      destruct (fes_fetch (w_fes w)) as [[[t ev] f1]|] eqn:Hf.
+      * destruct (gen_facts w tr HG) as (Q1 & Q2 & Q3).
+        destruct (step_same w w' t ev f1 HS W Hf Q1 Q2) as [R O]; [intros ->; eapply Q3; eauto|].
+        eapply (IH n n'); [lia| |exact R| |exact Hn|exact Hn'].
+        -- eapply G1; [exact HG|]. apply (S_loop sc w t ev f1 Hf).
+        -- rewrite !Litems, Ho, O. reflexivity.
+      * injection Hn as <- <- <-. injection Hn' as <- <- <-. exact Ho.
+    + (* module m is dead in both *)
+      pose proof HD as [a [b1 b2] [s1 s2] [c d] fr [n1 n2]].
+      destruct (fes_fetch (w_fes w)) as [[[t ev] f1]|] eqn:Hf.
+      * destruct (inert m ev) eqn:Hi.
+        -- (* the panicking run dispatches an inert event on its own *)
+           destruct (inert_step sc w t ev f1 b1 s1 c W n1 Hf Hi) as (I1 & I2 & I3 & I4 & I5 & I6 & I7 & I8).
+           eapply (IH n (S n')) with (now' := now'); [lia| | | |exact Hn|cbn [iter_nat]; rewrite loop_step_eq; exact Hn'].
+           ++ eapply G1; [exact HG|]. apply (S_loop sc w t ev f1 Hf).
+           ++ split; [right|split; [exact I5|exact W']]. unfold loop_rec. cbn [fst].
+              constructor; auto. intros j Hj. rewrite I1 by exact Hj. apply a, Hj.
+           ++ rewrite Litems, <- Ho. unfold loop_rec. cbn [snd e_items]. rewrite I8. cbn [app]. rewrite others_sample, app_nil_r. reflexivity.
+        -- destruct (fes_fetch (w_fes w')) as [[[t' ev'] f1']|] eqn:Hf'.
+           ++ destruct (inert m ev') eqn:Hi'.
+              ** (* the quiet run dispatches an inert event on its own *)
+                 destruct (inert_step sc' w' t' ev' f1' b2 s2 d W' n2 Hf' Hi') as (I1 & I2 & I3 & I4 & I5 & I6 & I7 & I8).
+                 eapply (IH (S n) n') with (now := now); [lia|exact HG| | |cbn [iter_nat]; rewrite loop_step_eq, Hf; exact Hn|exact Hn'].
+                 --- split; [right|split; [exact W|exact I5]]. unfold loop_rec. cbn [fst].
+                     constructor; auto.
+                     +++ intros j Hj. rewrite I1 by exact Hj. apply a, Hj.
+                     +++ apply FesRel_sym, I7, FesRel_sym, fr.
+                 --- rewrite Litems, Ho. unfold loop_rec. cbn [snd e_items]. rewrite I8. cbn [app]. rewrite others_sample, app_nil_r. reflexivity.
+              ** (* both dispatch the same event *)
+                 destruct (fetch_common m _ _ _ _ _ _ _ _ fr Hf Hi Hf' Hi') as (-> & -> & FR).
+                 destruct (step_dead w w' t ev f1 f1' HD W W' Hf Hf' Hi FR) as [R O].
+                 eapply (IH n n'); [lia| |exact R| |exact Hn|exact Hn'].
+                 --- eapply G1; [exact HG|]. apply (S_loop sc w t ev f1 Hf).
+                 --- rewrite !Litems, Ho, O. reflexivity.
+           ++ exfalso. pose proof (fetch_none_r m _ _ _ _ _ Hf' fr Hf) as C. congruence.
+      * destruct (fes_fetch (w_fes w')) as [[[t' ev'] f1']|] eqn:Hf'.
+        -- pose proof (fetch_none_l m _ _ _ _ _ Hf fr Hf') as Hi'.
+           destruct (inert_step sc' w' t' ev' f1' b2 s2 d W' n2 Hf' Hi') as (I1 & I2 & I3 & I4 & I5 & I6 & I7 & I8).
+           eapply (IH (S n) n') with (now := now); [lia|exact HG| | |cbn [iter_nat]; rewrite loop_step_eq, Hf; exact Hn|exact Hn'].
+           ++ split; [right|split; [exact W|exact I5]]. unfold loop_rec. cbn [fst].
+              constructor; auto.
+              ** intros j Hj. rewrite I1 by exact Hj. apply a, Hj.
+              ** apply FesRel_sym, I7, FesRel_sym, fr.
+           ++ rewrite Litems, Ho. unfold loop_rec. cbn [snd e_items]. rewrite I8. cbn [app]. rewrite others_sample, app_nil_r. reflexivity.
+        -- injection Hn as <- <- <-. injection Hn' as <- <- <-. exact Ho.
+Qed.
+
+(* ---- the start-up phase, in lock step ---- *)
+Record SI (acc acc' : world * list erec) : Prop := {
+  si_gen : Gen sc (fst acc) (snd acc);
+  si_rel : Rel (fst acc) (fst acc');
+  si_tcur : f_tcur (w_fes (fst acc)) = f_tcur (w_fes (fst acc'));
+  si_oth : others (items (snd acc)) = others (items (snd acc')) }.
+
+Lemma stages' i : c_stages (cfg sc' i) = c_stages (cfg sc i).
+Proof. destruct (N.eq_dec i m) as [->|Hi]; [rewrite cfg_self; reflexivity|rewrite (cfg_other i Hi); reflexivity]. Qed.
+
+Lemma start_step stage i acc acc' : SI acc acc' -> (stage = 0 -> w_mod (fst acc) i = mst0 (cfg sc i)) ->
+  SI (start_one sc stage i acc) (start_one sc' stage i acc').
+Proof.
+  intros [HG [HR [W W']] Ht Ho] Hfr. destruct acc as [w tr], acc' as [w' tr']. cbn [fst snd] in *.
+  rewrite !start_one_eq, stages'. destruct (stage <? c_stages (cfg sc i)) eqn:Els; [|constructor; cbn [fst snd]; [assumption|split; auto|assumption..]].
+  assert (HG' : Gen sc (fst (start_rec sc stage i w)) (tr ++ [snd (start_rec sc stage i w)])) by (eapply G1; [exact HG|apply S_start, Hfr]).
+  unfold start_rec in *. cbn [fst snd] in *.
+  destruct (N.eq_dec i m) as [->|Hi].
+  - (* stage 0 of module m itself (its only stage) *)
+    assert (E0 : stage = 0) by (rewrite Hst in Els; apply N.ltb_lt in Els; lia). subst stage.
+    assert (Ha : active (w_mod w m) = true) by (rewrite (Hfr eq_refl); reflexivity).
+    destruct HR as [HS|HD]; [|destruct HD as [_ [b1 _] _ _ _ _]; congruence].
+    destruct (gen_facts w tr HG) as (Q1 & Q2 & _).
+    destruct (m_event 0 (start_cb sc 0 m) (start_cb sc' 0 m) w w' HS W (fun _ => Q2 Ha) (start_cb_ok _ _ _ _ _) (start_cb_ok _ _ _ _ _))
+      as (R & Wa & Wb & T1 & T2).
+    { unfold start_cb. apply at_sim_start0_post. split; [apply activate_agree, Same_agree, HS|reflexivity]. }
+    constructor; cbn [fst snd]; [exact HG'|split; [exact R|split; assumption]|rewrite T1, T2; reflexivity|].
+    rewrite !items_snoc, !others_app, Ho. cbn [e_items].
+    rewrite (others_own _ (around_own sc 0 m _ w (start_cb_ok _ _ _ _ _))), (others_own _ (around_own sc' 0 m _ w' (start_cb_ok _ _ _ _ _))). reflexivity.
+  - rewrite (cb_start i stage Hi). destruct HR as [HS|HD].
+    + destruct (same_other_event 0 i (start_cb sc stage i) w w' Hi HS (start_cb_ok _ _ _ _ _)) as (E1 & E2 & E3 & T1 & T2).
+      { intros s s' H. unfold start_cb. apply at_sim_start_agree, H. }
+      destruct (E3 W W') as [Wa Wb].
+      constructor; cbn [fst snd]; [exact HG'|split; [left; exact E2|split; assumption]|rewrite T1, T2; exact Ht|].
+      rewrite !items_snoc, !others_app, Ho. cbn [e_items]. rewrite E1. reflexivity.
+    + destruct (dead_other_event 0 i (start_cb sc stage i) w w' Hi HD (start_cb_ok _ _ _ _ _)) as (E1 & E2 & Wa & Wb & T1 & T2); try assumption.
+      { intros s s' H. unfold start_cb. apply at_sim_start_agree, H. }
+      constructor; cbn [fst snd]; [exact HG'|split; [right; exact E2|split; assumption]|rewrite T1, T2; exact Ht|].
+      rewrite !items_snoc, !others_app, Ho. cbn [e_items]. rewrite E1. reflexivity.
+Qed.
+
+Lemma start_stage_sim stage : forall ms acc acc', NoDup ms -> SI acc acc' ->
+  (stage = 0 -> forall i, In i ms -> w_mod (fst acc) i = mst0 (cfg sc i)) ->
+  SI (fold_left (fun acc i => start_one sc stage i acc) ms acc) (fold_left (fun acc i => start_one sc' stage i acc) ms acc').
+Proof.
+  induction ms as [|i ms IH]; intros acc acc' Hnd H Hf; cbn [fold_left]; [exact H|].
+  inversion Hnd as [|x l Hnin Hnd']; subst. apply IH; [exact Hnd'| |].
+  - apply start_step; [exact H|]. intros E. apply Hf; [exact E|left; reflexivity].
+  - intros E j Hin. rewrite start_one_oth; [apply Hf; [exact E|right; exact Hin]|]. intros ->. contradiction.
+Qed.
+
+Lemma sim_start_sim : SI (sim_start sc (init_world sc)) (sim_start sc' (init_world sc')).
+Proof.
+  unfold sim_start. unfold sc' at 2 3. rewrite max_stage_quieten, mods_quieten. fold sc'.
+  destruct (stage_list_shape (max_stage sc) (max_stage_ge1 sc)) as (tl & -> & Htl). cbn [fold_left].
+  assert (G : forall stages acc acc', Forall (fun st => st <> 0) stages -> SI acc acc' ->
+              SI (fold_left (fun acc stage => fold_left (fun acc i => start_one sc stage i acc) (mods sc) acc) stages acc)
+                 (fold_left (fun acc stage => fold_left (fun acc i => start_one sc' stage i acc) (mods sc) acc) stages acc')).
+  { induction stages as [|st stages IH]; intros acc acc' Hne H; cbn [fold_left]; [exact H|].
+    inversion Hne; subst. apply IH; [assumption|]. apply start_stage_sim; [apply mods_nodup|exact H|]. intros E. contradiction. }
+  apply G; [exact Htl|]. apply start_stage_sim; [apply mods_nodup| |intros _ i _; reflexivity].
+  destruct (init_quieten m sc) as [If Im]. fold sc' in If, Im.
+  constructor; cbn [fst snd]; [apply G0| |rewrite If; reflexivity|reflexivity].
+  assert (Wi : WF (w_fes (init_world sc))) by (unfold init_world; cbn [w_fes]; apply WF_flush, WF_empty).
+  split; [left; constructor; [intros i; symmetry; apply Im|symmetry; exact If|split; reflexivity]|].
+  split; [exact Wi|rewrite If; exact Wi].
+Qed.
+
+(* ---- the theorem ---- *)
+Lemma gen_no_end sc0 : forall w tr, Gen sc0 w tr -> filter (fun e => negb (is_end e)) tr = tr.
+Proof.
+  induction 1 as [|w tr e w' HG IH Hs]; [reflexivity|]. rewrite filter_app, IH. cbn [filter].
+  destruct Hs; reflexivity.
+Qed.
+
+Lemma end_seq_all_end sc0 now : forall ms w, filter (fun e => negb (is_end e)) (snd (end_seq sc0 now ms w)) = [].
+Proof.
+  induction ms as [|i ms IH]; intros w; cbn [end_seq]; [reflexivity|].
+  destruct (end_seq sc0 now ms (fst (end_rec sc0 now i w))) as [w2 es] eqn:Es. cbn [snd filter].
+  replace es with (snd (end_seq sc0 now ms (fst (end_rec sc0 now i w)))) by (rewrite Es; reflexivity). apply IH.
+Qed.
+
+Definition events_of (tr : list erec) : list erec := filter (fun e => negb (is_end e)) tr.
+
+Theorem others_as_if_silent :
+  r_ok (run_script sc) = true -> r_ok (run_script sc') = true ->
+  others (items (events_of (trace sc))) = others (items (events_of (trace sc'))).
+Proof.
+  unfold trace, run_script. pose proof sim_start_sim as [HG HR Ht Ho].
+  pose proof (boot_gen sc) as HB. pose proof (boot_gen sc') as HB'. unfold boot_trace, boot_rec in HB, HB'.
+  destruct (sim_start sc (init_world sc)) as [w0 tr0]. destruct (sim_start sc' (init_world sc')) as [w0' tr0']. cbn [fst snd] in *.
+  rewrite !iter_until_nat.
+  pose proof (iter_gen sc (Pos.to_nat (fuel sc)) w0 0 _ HB) as I1.
+  pose proof (iter_gen sc' (Pos.to_nat (fuel sc')) w0' 0 _ HB') as I2.
+  destruct (iter_nat (Pos.to_nat (fuel sc)) (loop_step sc) _) as [[[w n] tr]|[[w n] tr]] eqn:E1; [cbn; discriminate|].
+  destruct (iter_nat (Pos.to_nat (fuel sc')) (loop_step sc') _) as [[[w' n'] tr']|[[w' n'] tr']] eqn:E2; [cbn; discriminate|].
+  intros _ _. destruct I1 as [I1 _]. destruct I2 as [I2 _].
+  unfold sim_end. rewrite !sim_end_eq. cbn [app r_trace]. unfold events_of.
+  rewrite !filter_app, (gen_no_end sc w tr I1), (gen_no_end sc' w' tr' I2), !end_seq_all_end, !app_nil_r.
+  eapply (sim_loop _ _ _ w0 w0' 0 0); [apply Nat.le_refl|exact HB|exact HR| |exact E1|exact E2].
+  rewrite !items_snoc, !others_app, Ho. reflexivity.
 Qed.
 End Silent.
